@@ -34,7 +34,9 @@
                   without it PostgreSQL resolves ONE element type from the elements (select_common_type) — ARRAY[1, 'NaN']
                   fails in int4in, ARRAY['"a"', '5'] is text[], which is not assignable to jsonb[] / uuid[] / date[] … —
                   with it transformTypeCast hands the target type down to transformArrayExpr (nested constructors
-                  included) and every element is converted by the element type's input function on its own;
+                  included) and every element is converted by the element type's input function on its own (the cast is
+                  demanded for every array-typed column: this definition does not reproduce select_common_type, so it asks
+                  for the form that is right whatever the element constants are);
                   when T is not an array type the elements are values of the unknown type 0 and no cast is required;
                   the empty array as the string constant '{}' (array input syntax, accepted by a column of any array type);
     <type words>  one or more bare words (the column type is not stored data: pgread takes it from a fixed table).
